@@ -156,7 +156,7 @@ fn ordered_selections(max: usize) -> Vec<Vec<usize>> {
 
 pub fn run(ctx: &'static Ctx) -> (&'static str, Value, Vec<&'static str>) {
     let thorough = ctx.tier.thorough();
-    let mut orders = ordered_selections(if thorough { 4 } else { 3 });
+    let mut orders = ordered_selections(if thorough { 5 } else { 3 });
     for mask in 0u32..1024 {
         let canon: Vec<usize> = (0..10).filter(|k| mask & (1 << k) != 0).collect();
         orders.push(canon.clone());
